@@ -190,6 +190,26 @@ def check(ctx, F):
             if not excl:
                 ctx.violation("C13.sentinel", site, "%s (%s)" % (site, F.floc(fid)),
                               "%s is true while nothing is pending: `%s` holds with compoRequested == INVALID_PRONG" % (site, sorted(got)), {})
+            else:
+                # with the exclusion in place a region that has no request of its own must be judged by its ancestors: a state nested below a region
+                # that is being left has nothing requested at its nearest fork, yet it is exited.  Some path must consult compoRequested of a
+                # second fork after moving up (the exclusion at the nearest fork alone turns the false positive into a false negative)
+                climbs = False
+                for p in sym_paths(F, fid, 2):
+                    ctx.paths += 1
+                    seq = ""
+                    for ev in p:
+                        txt = " ".join(str(x) for x in ev[2:5] if isinstance(x, (str, list)))
+                        if ev[0] == "call" and ev[2] is not None and F.fn(ev[2])["name"] == "forkParent" or (ev[0] == "write" and (ev[2] or "").startswith("L:parent")):
+                            seq += "M"
+                        elif "compoRequested" in txt and ev[0] in ("assume", "ret"):
+                            seq += "R"
+                    if re.search(r"R+M+R", seq):
+                        climbs = True
+                if not climbs:
+                    ctx.violation("C13.sentinel", site + "/nearest-only", "%s (%s)" % (site, F.floc(fid)),
+                                  "%s excludes compoRequested == INVALID_PRONG but looks at the nearest composite fork only: for a state nested below a region "
+                                  "that is being left (nothing requested at its own fork) it answers false although the state is exited" % site, {})
     for name in QUERIES:
         g, n = per.get(("general", name)), per.get(("noortho", name))
         if g and n:
